@@ -12,11 +12,11 @@ CONSTANTS
   WakeAfterPush = TRUE
   Overflow = FALSE
   Hosts <- BothHosts
-  Muts = {"flushSeesCompleted"}
+  Muts = {"oldFlush"}
   Ops = {"o1"}
   Timers = {}
   Jobs = {"j1"}
-  Owner <- OwnQO
+  Owner <- OwnQJ
   AnyTurn = TRUE
 SPECIFICATION XSpec
-INVARIANTS XTypeOK PendingBound TypeOK RepFlushSeesCompleted
+INVARIANTS XTypeOK PendingBound TypeOK CtlOldFlush
